@@ -165,6 +165,16 @@ Theorem C10_compile_wellformed :
 Proof. exact compile_wellformed. Qed.
 Print Assumptions C10_compile_wellformed.
 
+(* together with: every instruction of the returned program has a source-trace entry *)
+Theorem C10_compile_trace_complete :
+  forall (M : module) (o : options) (B : compiled),
+    compile M o = COk B ->
+    program_in_range M o = true ->
+    (N.of_nat (length (p_bytecode B)) < 2147483648)%N ->
+    trace_complete B.
+Proof. exact compile_trace_complete. Qed.
+Print Assumptions C10_compile_trace_complete.
+
 Theorem C10_from_u32_injective :
   forall i j : N, (i < 4294967295)%N -> (j < 4294967295)%N -> handle_from_u32 i = handle_from_u32 j -> i = j.
 Proof. exact handle_from_u32_inj. Qed.
@@ -189,3 +199,43 @@ Example C10_compile_wellformed_example :
             wf_check_gen false B = true /\ wellformed_gen false B.
 Proof. exact full_example. Qed.
 Print Assumptions C10_compile_wellformed_example.
+
+(* ---- scoping of index operands where the compiler produces them (CompilerScope.v) ----
+   The bytecode does not declare the number of locals of a function, so "a local index refers to an
+   existing local of its function at that point" is not a property of the output; these theorems are about
+   the operations of the model that produce the index operands.  (Not proved: the same for every
+   emission inside process_card - the hidden locals of Repeat / ForEach / Array are used after their
+   children were compiled; that needs an instrumented copy of process_card.) *)
+From Cao Require Import CompilerScope.
+
+(* the slot returned by add_local is the one just created: index = number of locals before, < 255 *)
+Theorem C10_add_local_slot :
+  forall (x : str) (s : cstate) (i : N) (s' : cstate),
+    cs_locals s <> [] -> add_local x s = ROk i s' ->
+    i = nlocals s /\ nlocals s' = (nlocals s + 1)%N /\ (i < 255)%N.
+Proof. exact add_local_slot. Qed.
+Print Assumptions C10_add_local_slot.
+
+(* resolve_var returns indices inside the locals / upvalues of the function being compiled, and keeps
+   the upvalue lists linked: an entry (is_local = true, index) of a function refers to an existing local
+   of the enclosing function, an entry (false, index) to an existing upvalue of the enclosing function
+   ([frames_ok]; these entries are the operand pairs of RegisterUpvalue) *)
+Theorem C10_resolve_var_in_scope :
+  forall (x : str) (s : cstate) (v : variable) (s' : cstate),
+    frames_ok (cs_locals s) (cs_upvalues s) ->
+    resolve_var x s = ROk v s' ->
+    frames_ok (cs_locals s') (cs_upvalues s') /\
+    match v with
+    | VLocal i => (i < nlocals s')%N /\ nlocals s' = nlocals s
+    | VUpvalue k => (k < nupvalues s')%N /\ nlocals s' = nlocals s
+    | VGlobal => nlocals s' = nlocals s
+    end.
+Proof. exact resolve_var_in_scope. Qed.
+Print Assumptions C10_resolve_var_in_scope.
+
+(* the operand of a CloseUpvalue emitted at scope end is the slot of a local that goes out of scope *)
+Theorem C10_close_upvalue_slot :
+  forall (rls : list local) (d : Z),
+    Forall (close_slot (length (fst (pop_locals rls d))) (length rls)) (snd (pop_locals rls d)).
+Proof. exact pop_locals_close_slot. Qed.
+Print Assumptions C10_close_upvalue_slot.
